@@ -31,3 +31,27 @@ Example C04_demo_fresh_root :
   | Err _ => False end.
 Proof. exact EditAppend.demo_fresh_root. Qed.
 Print Assumptions C04_demo_fresh_root.
+
+(* removal: `rm k` of a plain top-level binding (set whose bindings all have single-segment names: plain_order) deletes exactly the entries
+   printed for that binding; everything before and after it prints as before, in order, with its nested contents *)
+From E Require Import EditRemove.
+Theorem C04_rm_plain_root : forall s k i, plain_order s -> find_by_name s (rvals s) k = Some i -> find_root s (rvals s) k = None ->
+  exists l1 l2,
+    rvals s = (l1 ++ i :: l2)%list /\ find_by_name s l1 k = None /\
+    snd (m_rm s [k]) = Ok tt /\
+    items_of (view s) =
+      (flat_map (entry_items (fun _ t => t) 999 s) (map OPlain l1) ++ entry_items (fun _ t => t) 999 s (OPlain i) ++
+       flat_map (entry_items (fun _ t => t) 999 s) (map OPlain l2))%list /\
+    items_of (view (fst (m_rm s [k]))) =
+      (flat_map (entry_items (fun _ t => t) 999 s) (map OPlain l1) ++ flat_map (entry_items (fun _ t => t) 999 s) (map OPlain l2))%list.
+Proof. exact EditRemove.rm_plain_root. Qed.
+Print Assumptions C04_rm_plain_root.
+(* non-vacuity: { a = 1; b = { c = 2; }; d = 3; } meets the hypotheses for k = b *)
+Definition rm_doc : idoc := ISet true [([cs "a"], IAtom (cs "1")); ([cs "b"], ISet true [([cs "c"], IAtom (cs "2"))]); ([cs "d"], IAtom (cs "3"))].
+Example C04_rm_nonvacuous :
+  match parse_doc rm_doc with
+  | Ok s => plain_order s /\ (exists i, find_by_name s (rvals s) (cs "b") = Some i) /\ find_root s (rvals s) (cs "b") = None /\
+            view (fst (m_rm s [cs "b"])) = TS [(cs "a", TA (cs "1")); (cs "d", TA (cs "3"))]
+  | Err _ => False end.
+Proof. vm_compute. repeat split; try reflexivity; [right; reflexivity|eexists; reflexivity]. Qed.
+Print Assumptions C04_rm_nonvacuous.
